@@ -20,8 +20,9 @@ def _mk_inputs(case, d):
     uris = []
     for k, px in enumerate(case["inputs"]):
         p = os.path.join(d, f"in{k}.cool")
+        bits = case["bits_in"][k] if "bits_in" in case else case["bits"]
         cooler.create_cooler(p, bins, gen.pixels_frame(px, cols, {c: np.int64 for c in cols}),
-                             columns=cols if cols != ["count"] else None, dtypes=_dtypes(cols, case["bits"]),
+                             columns=cols if cols != ["count"] else None, dtypes=_dtypes(cols, bits),
                              ordered=True, symmetric_upper=case["mode"] == "symm")
         uris.append(p)
     return uris
